@@ -8,7 +8,7 @@ def run(rep, specs, us, tier):
         u = us[s.label]
         for fn in u.function_list:
             if fn.relfile().startswith("include/crypto/hash/") and not fn.name.endswith("self_test"):
-                k = r_carry.check(rep, fn)
+                k = r_carry.check(rep, fn) + r_carry.check_addends(rep, fn)
                 if k:
                     rep.functions.add(fn.name)
                     n += k
